@@ -185,6 +185,34 @@ Section Sanitize.
   Definition replace_lookup {T} (repl : list (ustring * T)) (def_name : ustring) : option T :=
     assoc (sanitize def_name Pascal) repl.
 
+  (* util.rs:803-814 type_patch: settings.patch.get(type_name).rename, else the name itself
+     (the rename is used verbatim, it is not sanitised) *)
+  Definition type_patch (patch : list (ustring * ustring)) (n : ustring) : ustring :=
+    match assoc n patch with
+    | Some r => r
+    | None => n
+    end.
+
+  (* All definition-level name sources of ONE add_root_schema / add_ref_types call
+     (lib.rs add_root_schema: the titled root is pushed LAST as RefKey::Root and named
+     from its title: Name::Unknown + metadata title -> sanitize(title, Pascal);
+     definitions: Name::Required(key) -> sanitize(key, Pascal); both then through
+     type_patch).  `batch_names` (fix c22ef06) compares the names of the CONVERTED
+     entries, so the root takes part.  Not modelled: replaced definitions (no item),
+     derived names of inline sub-types. *)
+  Definition batch_type_names (patch : list (ustring * ustring)) (defs : list ustring)
+             (root_title : option ustring) : list ustring :=
+    List.map (fun d => type_patch patch (sanitize d Pascal)) defs ++
+    match root_title with
+    | Some t => [type_patch patch (sanitize t Pascal)]
+    | None => []
+    end.
+
+  Definition add_batch (patch : list (ustring * ustring)) (defs : list ustring)
+             (root_title : option ustring) : outcome (list ustring) :=
+    if unique (batch_type_names patch defs root_title)
+    then Ok (batch_type_names patch defs root_title) else Err.
+
 End Sanitize.
 
 (* ------------------------------------------------------------------ *)
@@ -286,6 +314,14 @@ Definition run_fields (cls : CharClasses) (props : list ustring) (typed_addition
 
 Definition run_defs (cls : CharClasses) (defs : list ustring) : string :=
   match add_definitions cls defs with
+  | Ok ids => show_list (List.map show_ustring ids)
+  | Err => "err"
+  | Panic => "panic"
+  end.
+
+Definition run_batch (cls : CharClasses) (patch : list (ustring * ustring)) (defs : list ustring)
+           (root_title : option ustring) : string :=
+  match add_batch cls patch defs root_title with
   | Ok ids => show_list (List.map show_ustring ids)
   | Err => "err"
   | Panic => "panic"
